@@ -1,28 +1,44 @@
 """C11 — relocation entries round-trip in both formats, classes and byte orders.
 
-Proved (Props/C11.lean, about Model/Reloc.lean whose guards, offset computations, width conversions
-and ELF32_R_INFO/ELF64_R_INFO packings are the generated expressions of Gen/SitesC11.lean, and whose
-sym/type extractors are the generated get_sym_and_type<T>::get_r_sym/get_r_type of Gen/Funcs.lean), for
-ALL sections satisfying SecBuf.Inv and ALL values / sequences / indices:
-  * add_refines / adds_refine : every add_entry overload appends exactly Spec.encodeEntry (the gABI
-    record: r_offset, r_info with the ABI packing 24+8 / 32+32, r_addend two's complement, each in the
-    file's byte order) — for any sequence of adds the section is Spec.encodeTable of the entries (rel_bytes)
-  * get_refines : get_entry(k) returns Spec.decodeEntry of the k-th record, never faults (get_total, for
-    every section with Inv, every entry size, type and index)
-  * rel_roundtrip / rela_roundtrip : after any sequence of adds, get_entry(k) returns the k-th entry with
-    offset reduced to the class width, symbol and type unchanged (ranges of the quantifier) and, for RELA,
-    the addend reduced to the class width and sign-extended back
-  * set_entry_frame : set_entry(i) rewrites exactly the bytes [i*S, (i+1)*S) with Spec.encodeEntry of the new
-    values; get(i) then returns them and every other entry is unchanged
-  * swap_refines / swap_symbols_involutive : swap_symbols(a,b) maps the table through Spec.swapSym and doing
-    it twice restores every byte (a, b in the symbol range of the class, fewer than 2^32 entries)
-  * the bit lemmas of the four macro pairs are in Lemmas/Bits.lean (bv_decide), e.g. r_sym(pack s t) = s.
-Only covered by correspondence + oracle (not proved): "after save and reload" — the harness saves with the
-real writer, loads the image again (eagerly or lazily) and continues on the loaded object; the oracle decodes
-the section's bytes *of the saved image* with an independent Python gABI decoder.  The model side of `reload`
-is SecBuf.loadedEager/loadedLazy of the section's content (the loader/writer models are C01-C06's).
-Out-of-domain inputs (ELF32 symbol >= 2^24 / type >= 2^8, foreign entry sizes, foreign section types, REL adds
-on RELA tables) are generated for the correspondence only; the oracle makes no claim about them.
+Model: Model/Reloc.lean = relocation_section_accessor over the C07 section buffer (SecBuf).  Every guard, index and
+pointer-offset computation, width conversion and the ELF32_R_INFO/ELF64_R_INFO packings at their use sites are the
+generated expressions of Gen/SitesC11.lean (per instantiation T of the generic_* member templates); the sym/type
+extractors are the generated get_sym_and_type<T>::get_r_sym/get_r_type (Gen/Funcs.lean; they return `int`, the
+translator keeps the 32-bit pattern, so a type >= 2^31 passes through `int` unchanged).  Every pEntry->FIELD access
+is a checked read/write on the allocation; fields go through rdField/wrField (= the spec codec, Model/Field.lean).
+
+Proved in Props/C11.lean for ALL sections with the C07 invariant SecBuf.Inv (fresh, loaded eagerly/lazily, edited),
+ALL values, sequences and indices (no sorry/axiom; bv_decide only in Lemmas/Bits.lean):
+  spec_roundtrip        gABI codec: decode(encode e) = e up to class-width reduction of offset/addend, for symbol/type
+                        in the ranges of the packing (24+8 bits ELF32, 32+32 bits ELF64)
+  add_refines           one add_entry(offset,symbol,type[,addend]) appends exactly Spec.encodeEntry: r_offset, r_info with
+                        the ABI packing, r_addend two's complement, each in the file's byte order
+  addInfo_refines       the add_entry(offset,info[,addend]) overloads append the record with the info word as given
+  adds_refine/rel_bytes any sequence of adds: the section is Spec.encodeTable of all entries (induction, any length)
+  get_refines           get_entry(k), k valid, returns Spec.decodeEntry of record k (entry size >= sizeof(T))
+  get_invalid/get_total k >= count is refused; get_entry never faults on ANY section with Inv (any class, type, entry
+                        size, index)
+  rel_roundtrip / rela_roundtrip   after any sequence of adds, get_entry(k) = the k-th entry with offset reduced to the class
+                        width, symbol and type unchanged, REL addend 0, ELF32 RELA addend narrowed to 32 bits and
+                        sign-extended (normEntry_addend_fits: unchanged when it fits), ELF64 addend unchanged
+  set_entry_frame/_bytes/_get  set_entry(i) returns true and rewrites exactly the bytes of record i with the encoding of the
+                        new values; get(i) returns them, every other get returns what it returned before
+  set_invalid/set_total invalid index: false and nothing changes; total when sizeof(T) <= entry size
+  swap_refines / swap_symbols_involutive   swap_symbols(a,b) maps the table through Spec.swapSym; twice restores every byte
+                        (a,b below the symbol limit of the class; fewer than 2^32 entries: the loop variable is 32 bits)
+  fresh_reloc           a new section with type/entry size of a relocation table meets the hypotheses (non-vacuity)
+  Lemmas/Bits.lean      rel32_sym_pack, rel32_type_pack (+ _any: what comes back outside the ranges), rel64_sym_pack,
+                        rel64_type_pack, rel32_pack_unpack, rel64_pack_unpack, sext32_trunc_of_fits
+  set_entry_small_entsize_witness   (outside the domain) set_entry/swap_symbols have no entry-size guard: with
+                        0 < sh_entsize < sizeof(T) they write past the buffer; reproduced by the model, reported for C18.
+Covered by correspondence + oracle only: "after save and reload".  The harness saves with the real writer, loads the
+image again (eagerly or lazily), continues on the loaded object, and prints the bytes of the saved image at the section's
+file offset; the oracle decodes them with an independent Python gABI decoder.  On the model side `reload` is
+SecBuf.loadedEager/loadedLazy of the bytes save writes (writer/loader models are C03/C05's).
+Known finding (open, witness corpus/c11/lazy_unread_resave.case): a lazily loaded table that is never read is saved
+as zero bytes (section_impl::save skips non-resident data) — root outside the relocation accessor.
+Out-of-domain inputs (ELF32 symbol >= 2^24 / type >= 2^8, foreign entry sizes and section types, REL adds on RELA tables,
+swap arguments >= 2^32) are generated for the correspondence only; the oracle makes no claim about them.
 """
 import itertools, struct
 
@@ -33,7 +49,7 @@ THEOREMS = ["ElfioVerif.C11." + t for t in (
     "spec_roundtrip", "add_refines", "addInfo_refines", "adds_refine", "rel_bytes",
     "get_refines", "get_invalid", "get_total", "rel_roundtrip", "rela_roundtrip", "normEntry_addend_fits",
     "set_entry_frame", "set_entry_bytes", "set_entry_get", "set_invalid",
-    "swap_refines", "swap_symbols_involutive", "fresh_reloc")] + ["ElfioVerif." + t for t in (
+    "set_total", "swap_refines", "swap_symbols_involutive", "fresh_reloc", "set_entry_small_entsize_witness")] + ["ElfioVerif." + t for t in (
     "rel32_sym_pack", "rel32_type_pack", "rel32_sym_pack_any", "rel32_type_pack_any", "rel64_sym_pack",
     "rel64_type_pack", "rel32_pack_unpack", "rel64_pack_unpack", "sext32_trunc_of_fits")]
 SITES = ["reloc_", "rel32_", "rel64_", "rela32_", "rela64_", "conv", "sec32_insert", "sec64_insert"]
@@ -185,6 +201,10 @@ def gen_random(rng, i):
     n_add = rng.choice([0, 1, 2, 3, 5, 8, 13, 20, 40]) if rng.random() < 0.5 else rng.randint(0, 12)
     n = 0; reloads = 0
     budget = n_add
+    # entry size below sizeof(T): set_entry/swap_symbols have no entry-size guard and write past the entry
+    # (C18's business).  Not generated: ASan misses unaligned accesses that leave the block only partially,
+    # so the transcripts of code and model cannot be compared there.
+    small = entsize is not None and entsize < esize(cls, kind)
     while budget > 0 or rng.random() < 0.6:
         k = rng.random()
         if budget > 0 and k < 0.5:
@@ -194,12 +214,12 @@ def gen_random(rng, i):
             lines.append(f"get {rng.choice([0, n - 1, n, n + 1, rng.randint(0, n + 2), 1 << 32, M64]) if n else rng.choice([0, 1])}")
         elif k < 0.70:
             lines.append("dump")
-        elif k < 0.80:
+        elif k < 0.80 and not small:
             idx = rng.randint(0, n) if rng.random() < 0.85 else rng.choice([n + 1, 1 << 32, M64])
             sym = r_sym(rng, cls, pool); pool.append(sym)
             lines.append(f"set {idx} {r_off(rng)} {sym} {r_type(rng, cls)} {r_add(rng)}")
             if rng.random() < 0.5: lines.append("dump")
-        elif k < 0.90:
+        elif k < 0.90 and not small:
             a = r_sym(rng, cls, pool); b = r_sym(rng, cls, pool)
             if ood and rng.random() < 0.3: b = rng.choice([1 << 32, (1 << 32) + a, 1 << 24, M64])
             lines.append(f"swap {a} {b}")
